@@ -4,9 +4,24 @@
    are explored by the step-injection sweep of the correspondence run.  For interrupts raised
    inside nested systems the nested scheduler queues the component and raises on behalf of the
    system (Model/Sim.v [raise_interrupt]); the system's Output then asks to be called back at once.
+   NESTED, AT ANY DEPTH, AT ANY MOMENT ([C07_no_interrupt_lost_at_any_depth], [C07_master_keeps_a_wakeup_for_it]): the alert
+   protocol of Model/Alert.v -- per scheduler the wakeup table, the pending interrupts, the messages in flight to it
+   (per-source FIFO), the running tick -- with the steps of the code (a device raises an interrupt at any moment; the
+   master / a nested scheduler is handed one; ticks start; components are handed their Input, passed over, answer; a
+   system simulation whose tick has ended asks to be called back at once when an interrupt is pending inside, at its earliest
+   inner wakeup otherwise) in ANY interleaving: in every reachable state in which nothing is running and nothing is in
+   flight, a device that has raised an interrupt and has not been updated since is queued in its scheduler, every system
+   simulation around it is queued in (or has a wakeup by hi in) the scheduler around it, and the outermost one has a
+   wakeup at the master no later than hi, the latest simulation time the master has used.  The invariant (Proofs/AlertP.v)
+   is "what a system simulation is going to get (after the messages in flight have been delivered in their order) is no
+   later than what its inside needs"; it covers the race repaired by 3a4bf5c (the callback of the system's Output
+   replacing the wakeup an interrupt has just left) and the callbacks of nested systems.  TIE: the harness records what
+   the real schedulers and components do on the delaying bus with interrupts racing with running ticks and
+   Oracle/AlertReplay.v replays it step by step ([C07_replayed_run_is_a_run_of_the_protocol]).
    Property theorems only. *)
 From TV Require Import Base Gen.SourceConsts Model.Wiring Model.Ticker Model.Component Model.Sim Model.Master Model.WakeFlag
-  Proofs.MasterP Proofs.WakeFlagP Model.PyLib Gen.SourceFuns Proofs.GenInterruptP.
+  Proofs.MasterP Proofs.WakeFlagP Model.PyLib Gen.SourceFuns Proofs.GenInterruptP
+  Model.Alert Proofs.AlertP Oracle.AlertReplay Proofs.AlertReplayP.
 Open Scope Z_scope.
 
 (* not lost: in any phase once the scheduler has started, the interrupt gives the component a
@@ -80,3 +95,71 @@ Proof. vm_compute. repeat split; reflexivity. Qed.
 Theorem C07_interrupt_bookkeeping_is_source : forall num den (m : master) (r : Z) (c : comp),
   gen_schedule_interrupt (mw m) c (stamp num den m r) = interrupt_wake num den m r c.
 Proof. exact interrupt_wake_is_source. Qed.
+
+(* ---------- nested, at any depth, whenever it arrives (Model/Alert.v) *)
+Theorem C07_no_interrupt_lost_at_any_depth : forall cfg tops initial s,
+  tree_okb cfg = true -> AReachFrom cfg (a_boot tops initial) s -> quiescent s ->
+  forall lv d, In (lv, d) (a_owed s) -> lookup d (l_order (level_of cfg lv)) = Some KDev -> Anc cfg lv ->
+  served_now s lv d /\ Chain cfg s lv.
+Proof.
+  intros cfg tops initial s Hok HR Hq lv d Hi Hk Ha. destruct (tree_okb_sound cfg Hok) as [H1 [H2 H3]].
+  destruct (alert_never_lost_from_boot cfg H1 H2 H3 tops initial s HR Hq lv d Hi Hk Ha) as [A [B _]]. split; assumption.
+Qed.
+
+Theorem C07_master_keeps_a_wakeup_for_it : forall cfg tops initial s,
+  tree_okb cfg = true -> AReachFrom cfg (a_boot tops initial) s -> quiescent s ->
+  forall lv d, In (lv, d) (a_owed s) -> lookup d (l_order (level_of cfg lv)) = Some KDev -> Anc cfg lv ->
+  exists z v, lookup z (a_wake (getl s top)) = Some v /\ v <= a_hi s.
+Proof.
+  intros cfg tops initial s Hok HR Hq lv d Hi Hk Ha. destruct (tree_okb_sound cfg Hok) as [H1 [H2 H3]].
+  destruct (alert_never_lost_from_boot cfg H1 H2 H3 tops initial s HR Hq lv d Hi Hk Ha) as [_ [_ C]]. exact C.
+Qed.
+
+(* the invariant itself, in every reachable state -- also while ticks run and messages are in flight *)
+Theorem C07_alert_invariant : forall cfg tops initial s,
+  tree_okb cfg = true -> AReachFrom cfg (a_boot tops initial) s ->
+  (forall p x lv, child cfg p x lv -> a_tick (getl s lv) = None -> sat (a_hi s) (Serve cfg s p x) (Urg s lv)) /\
+  (forall lv d, In (lv, d) (a_owed s) -> lookup d (l_order (level_of cfg lv)) = Some KDev -> sat (a_hi s) (Serve cfg s lv d) Now).
+Proof.
+  intros cfg tops initial s Hok HR. destruct (tree_okb_sound cfg Hok) as [H1 [H2 H3]].
+  destruct (boot_inv cfg H3 tops initial) as [B1 B2]. destruct (reach_inv_from cfg H1 H2 H3 _ s B1 B2 HR) as [_ HL].
+  split; [apply (al_link _ _ HL) | apply (al_owed _ _ HL)].
+Qed.
+
+(* what the replay of a recorded execution of the real schedulers accepts is a run of the protocol *)
+Theorem C07_replayed_run_is_a_run_of_the_protocol : forall cfg tops initial evs s n,
+  a_replay cfg evs (a_boot tops initial) O = inl (s, n) -> AReachFrom cfg (a_boot tops initial) s.
+Proof. intros cfg tops initial evs s n H. apply (a_replay_from cfg evs _ _ O s n (ARF_refl cfg _) H). Qed.
+
+(* non-vacuity: device 5 inside system simulation 4 (level 2) inside system simulation 3 (level 3 ... ) raises an interrupt
+   while the initial tick is running; the run goes on until nothing is running or in flight with the interrupt still
+   unserved: it is queued at every level and the master holds a wakeup for the outermost system simulation *)
+Definition al_cfg : config :=
+  [(1%positive, {| l_order := [(3%positive, KSys 2%positive); (9%positive, KDev)]; l_conns := [] |});
+   (2%positive, {| l_order := [(4%positive, KSys 3%positive)]; l_conns := [] |});
+   (3%positive, {| l_order := [(5%positive, KDev)]; l_conns := [] |})].
+Definition al_events : list aevent :=
+  [EMTick 0 [3; 9]%positive [3; 9]%positive;
+   EInSys 1%positive 3%positive 2%positive [4]%positive [4]%positive; EInSys 2%positive 4%positive 3%positive [5]%positive [5]%positive;
+   EInDev 3%positive 5%positive None;                         (* device 5 is updated ... *)
+   ERaise 3%positive 5%positive;                              (* ... and raises an interrupt while the ticks are still running *)
+   EInDev 1%positive 9%positive (Some 700);
+   EOut 3%positive 5%positive None;                           (* its Output, then its Interrupt, reach the scheduler of level 3 *)
+   EIntNested 2%positive 4%positive 3%positive 5%positive;
+   EDone 2%positive 4%positive 3%positive (Some 0);           (* system 4 asks to be called back at once *)
+   EIntNested 1%positive 3%positive 2%positive 4%positive;    (* the interrupt system 4 raised reaches level 2, then its Output *)
+   EOut 2%positive 4%positive (Some 0);
+   EDone 1%positive 3%positive 2%positive (Some 0);
+   EIntTop 3%positive 5;                                      (* the master stamps the interrupt of system 3 with 5 ... *)
+   EOut 1%positive 3%positive (Some 0);                       (* ... and then handles its Output: call back at 0 *)
+   EOut 1%positive 9%positive (Some 700); EMDone].
+
+Example C07_alert_example :
+  tree_okb al_cfg = true /\
+  match a_replay al_cfg al_events (a_boot [3; 9]%positive 0) O with
+  | inl (s, _) => quiescentb s = true /\ a_owed s = [(3%positive, 5%positive)] /\
+                  lookup 3%positive (a_wake (getl s top)) = Some 0 /\ a_hi s = 5 /\
+                  a_ints (getl s 3%positive) = [5%positive] /\ a_ints (getl s 2%positive) = [4%positive]
+  | inr _ => False
+  end.
+Proof. vm_compute. repeat split; reflexivity. Qed.
